@@ -154,11 +154,13 @@ def run(ctx):
                       "reciprocal metric / det != 1)" % bad[:5], where)
             # pairing: P commutes with diag(s,s,t)  <=>  P[2][0]=P[2][1]=P[0][2]=P[1][2]=0
             badp = [i for i, m in enumerate(P) if m[2][0] or m[2][1] or m[0][2] or m[1][2]]
-            if not kind[3]:
-                # rot[i] = B perm[i] B^-1 pairs with perm[i] only when perm[i] is an involution
-                noninv = [i for i, m in enumerate(P) if ga.mmul(m, m) != ga.I3]
+            if kind[3] != "inv":
+                # rot[i] = B X B^-1 pairs with perm[i] only when X.perm[i] = I (X = perm[i] itself or its transpose)
+                X = [m if kind[3] == "plain" else ga.transpose(m) for m in P]
+                noninv = [i for i, (x, m) in enumerate(zip(X, P)) if ga.mmul(x, m) != ga.I3]
                 ctx.check(not noninv, "C12:pair:%d:inverse" % s,
-                          "rot[i] is built from perm[i] instead of its inverse: rot[i].B.perm[i] != B for i in %s" % noninv[:6], where)
+                          "rot[i] is built from %s instead of inv(perm[i]): it is not the inverse for i in %s, so rot[i].B.perm[i] != B "
+                          "(and rot[i] is not orthogonal)" % ("perm[i]" if kind[3] == "plain" else "perm[i].T", noninv[:6]), where)
             ctx.check(not badp, "C12:pair:%d" % s,
                       "perm[%s] mixes the hexagonal plane with c: rot[i].B'.perm[i] != B' for cells other than the unit one"
                       % badp[:5], where)
@@ -247,8 +249,14 @@ def classify_rot_arm(mod, st, param):
             # dot(B, dot(inv(perm[i]), Binv))
             d1 = val
             inner = d1.args[1].args[0]
-            inverted = isinstance(inner, ast.Call) and inner.func.attr == "inv"
-            pe = inner.args[0] if inverted else inner
+            inverted = "plain"
+            pe = inner
+            if isinstance(inner, ast.Call) and getattr(inner.func, "attr", "") == "inv":
+                inverted, pe = "inv", inner.args[0]
+            elif isinstance(inner, ast.Attribute) and inner.attr == "T":
+                inverted, pe = "transpose", inner.value
+            elif isinstance(inner, ast.Call) and getattr(inner.func, "attr", "") == "transpose":
+                inverted, pe = "transpose", (inner.args[0] if inner.args else inner.func.value)
             okd = (d1.func.attr == "dot" and d1.args[0].id == bv and d1.args[1].func.attr == "dot"
                    and pe.value.id == pv and pe.slice.id == i and d1.args[1].args[1].id == biv)
             if okp and okB and okBi and okr and okit and okt and okd and len(f.body) == 1:
